@@ -196,3 +196,10 @@ func init() {
 		Assumptions: []string{"a panic reported by the interpreter is confirmed by running the same harness natively before it is reported"},
 	})
 }
+
+func init() {
+	reg(billCfg("C01", `^H_C01_`,
+		[]string{"unit layer, each step from a symbolic pre-state: calculateLine (price with currency / +2 / +4 decimals, quantity with 0..2 decimals, percentage discount, percentage or rate charge), calculateDiscounts/Charges (+ sums, with and without explicit base), calculateAdvances/totalAdvance/CalculateDues, calculateLineItemPrice (USD/JPY item, exchange rate or alternative price); all values symbolic (|v| <= 2^32), both rounding rules; EUR"},
+		[]string{"same with JPY and BHD"},
+		[]string{"whole-pipeline comparison with a reference implementation under the precise rule and the 'less than a full minor unit' bound (only the per-step exactness is decided; the pipeline's accounting identities are decided under the currency rule in C03)", "sub-line breakdowns", "regime-default rule selection"}))
+}
